@@ -77,6 +77,13 @@ pub fn run(outdir: &str, seed: u64, thorough: bool) -> serde_json::Value {
         ("cte-shadow-join", "WITH v AS (SELECT t.id AS i, t.age AS a FROM users AS t) SELECT s.a AS a, v.a AS b FROM (WITH v AS (SELECT o.user_id AS a FROM orders AS o) SELECT v.a AS a FROM v) AS s JOIN v ON s.a = v.i"),
         ("cte-shadow-in-cte", "WITH v AS (SELECT t.age AS a FROM users AS t), w AS (WITH v AS (SELECT o.user_id AS a FROM orders AS o) SELECT v.a AS a FROM v) SELECT w.a AS a FROM w"),
         ("join-on-or", "SELECT u.id AS i, o.id AS j FROM users AS u JOIN orders AS o ON u.id = o.user_id OR u.age > {k}0"),
+        // constant select items around aggregates, with and without GROUP BY (the position of every item is part of the result)
+        ("constant-before-aggregate", "SELECT {k} AS one, COUNT(t.age) AS n FROM users AS t"),
+        ("constants-around-aggregates", "SELECT 'x' AS label, SUM(t.age) AS s, {k} AS two, MAX(t.income) AS m, 'y' AS tail FROM users AS t"),
+        ("aggregate-then-constant", "SELECT COUNT(t.age) AS n, {k} AS one FROM users AS t WHERE t.age > 2{k}"),
+        ("constant-before-aggregate-grouped", "SELECT {k} AS one, COUNT(t.age) AS n, t.city AS c FROM users AS t GROUP BY t.city"),
+        ("constant-expression-before-aggregate", "SELECT {k} + 1 AS one, AVG(t.amount) AS a, 2 * {k} AS two FROM orders AS t"),
+        ("constant-before-aggregate-having", "SELECT {k} AS one, SUM(t.amount) AS s FROM orders AS t HAVING SUM(t.amount) > 0"),
         ("using", "SELECT * FROM users AS a JOIN orders AS b USING (id)"),
         ("using-left", "SELECT * FROM orders AS a LEFT JOIN users AS b USING (id)"),
         ("natural", "SELECT * FROM cities NATURAL JOIN users"),
